@@ -54,6 +54,7 @@ package hash
 //@   call AddWithReplicas#0: assert arg_node == node && arg_replicas == h.replicas * weight / 100
 //@   ensures awrCalls == old(awrCalls) + 1 && awrNode == node && awrReplicas == old(h.replicas) * weight / 100
 //@   ensures inDom(h.nodes, repr(node))
+//@   ensures addReady(h) && h.replicas == old(h.replicas)
 //@ func (h *ConsistentHash) Add
 //@   property C15
 //@   requires h.ring != nil && h.nodes != nil && h.replicas >= 100
@@ -118,6 +119,8 @@ package hash
 //@   loop 0: modifies h.keys, mapof(h.ring), calls(h.hashFunc)
 //@   loop 0: invariant 0 <= i && replicas <= h.replicas && h.ring != nil && h.nodes != nil && inDom(h.nodes, repr(node))
 //@   ensures inDom(h.nodes, repr(node))
+// the ring is left ready for the next insertion (keys sorted again: sort.Slice with the literal ascending less function)
+//@   ensures addReady(h) && h.replicas == old(h.replicas)
 
 //@ func (h *ConsistentHash) addNode
 //@   property C15
@@ -157,14 +160,14 @@ package hash
 // constructors: an empty ring with at least the minimum replica count
 //@ spec ringReady(h *ConsistentHash) bool = h != nil && h.ring != nil && h.nodes != nil && h.replicas >= 100
 // what Add / AddWithWeight / AddWithReplicas require of the ring (for callers in other packages)
-//@ spec addReady(h *ConsistentHash) bool = h != nil && h.ring != nil && h.nodes != nil && h.replicas >= 100 && forall(i.(int), j.(int), implies(0 <= i && i <= j && j < len(h.keys), h.keys[i] <= h.keys[j]))
+//@ spec addReady(h *ConsistentHash) bool = h.ring != nil && h.nodes != nil && h.replicas >= 100 && forall(i.(int), j.(int), implies(0 <= i && i <= j && j < len(h.keys), h.keys[i] <= h.keys[j]))
 //@ func NewCustomConsistentHash
 //@   property C15
 //@   ensures fresh(result) && result.ring != nil && result.nodes != nil && result.hashFunc != nil && result.replicas >= 100 && result.replicas >= replicas && len(result.keys) == 0
 //@   allocates
 //@ func NewConsistentHash
 //@   property C15
-//@   ensures fresh(result) && result.ring != nil && result.nodes != nil && result.replicas >= 100
+//@   ensures fresh(result) && result.ring != nil && result.nodes != nil && result.replicas >= 100 && len(result.keys) == 0 && addReady(result)
 //@   allocates
 
 // the ring's hash is the 64-bit murmur3 of the bytes (a narrower hash makes virtual points of different nodes coincide)
